@@ -175,6 +175,8 @@ def _parse_open_file(file_obj, parse_options=None):
     headers = [''] * len(headers)
 
   rows = rows[data_offset:]
+  # Headers were sized by looking at the sample only; make room for longer rows further down.
+  headers = import_utils.expand_headers(headers, 0, rows)
   num_rows = parse_options.get('NUM_ROWS', 0)
   table_data_with_types = parse_data.get_table_data(rows, len(headers), num_rows)
 
